@@ -25,6 +25,9 @@ import (
 	"strconv"
 	"strings"
 
+	njs "github.com/jsightapi/jsight-schema-go-library/notations/jschema"
+	"github.com/jsightapi/jsight-schema-go-library/rules/enum"
+
 	"verif/internal/gen"
 	"verif/internal/lib"
 	"verif/internal/model"
@@ -120,6 +123,17 @@ var c11CuratedFamilies = []c11Family{
 		},
 		Roots: []c11Root{{Text: "@bad1"}, {Text: "[@bad1]"}, {Text: "{\n  \"x\": @obj\n}"}},
 	},
+	{ // one type object (@item, naming @id) in two roots which bind @id to different types
+		Types: []lib.TypeDef{
+			{Name: "@id", Text: "1"},
+			{Name: "@item", Text: "{\n  \"id\": @id,\n  \"tags\": [ // {optional: true}\n    @id\n  ]\n}"},
+		},
+		Roots: []c11Root{
+			{Text: "{\n  \"it\": @item\n}"},
+			{Text: "{\n  \"it\": @item\n}", Override: []lib.TypeDef{{Name: "@id", Text: "\"s\""}}},
+			{Text: "[@item]", Override: []lib.TypeDef{{Name: "@id", Text: "true"}}},
+		},
+	},
 }
 
 var c11CuratedDocs = []c11Doc{
@@ -130,6 +144,7 @@ var c11CuratedDocs = []c11Doc{
 	{Text: `{"left": 1, "right": 2, "x": "s"}`}, {Text: `{"left": 1, "right": 2, "y": true, "z": null}`}, {Text: `[{"left": 1, "right": 2, "x": "s", "y": false, "z": null, "own": 3}]`},
 	{Text: `{"a": 1,}`}, {Text: ``}, {Text: `   `}, {Text: `[1, 2`}, {Text: `{"k": 1} trailing`, Trailing: true}, {Text: `{"k": 1} x`}, {Text: `1`}, {Text: `null`},
 	{Text: "{\n  \"k\" : [ true , false , null ] \n}\n"},
+	{Text: `{"it": {"id": 5}}`}, {Text: `{"it": {"id": "x"}}`}, {Text: `[{"id": true, "tags": [false]}]`}, {Text: `{"it": {"id": 5, "tags": ["a"]}}`},
 }
 
 var c11CuratedEnums = []string{
@@ -469,6 +484,9 @@ var c11ExhPools = []c11ExhPool{
 	{"roots with their own derived types over shared allOf bases + a document", c11Pool{
 		Families: []c11Family{{Types: c11CuratedFamilies[6].Types, Roots: c11CuratedFamilies[6].Roots[:2]}},
 		Docs:     []c11Doc{{Text: `{"left": 1, "right": 2, "x": "s"}`}}}},
+	{"one type object in two roots binding a name it references to different types + a document", c11Pool{
+		Families: []c11Family{{Types: c11CuratedFamilies[8].Types, Roots: c11CuratedFamilies[8].Roots[:2]}},
+		Docs:     []c11Doc{{Text: `{"it": {"id": 5}}`}}}},
 	{"two allOf parents, key shortcut roots + a trailing-characters document", c11Pool{
 		Families: []c11Family{{Types: c11CuratedFamilies[5].Types, Roots: c11CuratedFamilies[5].Roots[:2]}},
 		Docs:     []c11Doc{{Text: `{"p1": 1, "own": true, "kk2": 5} x`, Trailing: true}}}},
@@ -499,8 +517,33 @@ func c11ExhObjects(p *c11Pool) []c11Ref {
 
 // ---- units ------------------------------------------------------------------------------
 
+// c11SelfTest: the type texts of the curated families must load (family 3 is faulty on purpose);
+// a text that does not load would silently turn its family into a trivial one.
+func c11SelfTest(c *mon.Ctx) {
+	for fi, f := range c11CuratedFamilies {
+		if fi == 3 {
+			continue
+		}
+		for _, t := range f.Types {
+			if t.Regex {
+				continue
+			}
+			s := njs.New(t.Name, t.Text)
+			for _, r := range f.Rules {
+				_ = s.AddRule(r.Name, enum.New(r.Name, r.Text))
+			}
+			if _, o := lib.SafeVal(s.UsedUserTypes); !o.OK {
+				c.Inconclusive(fmt.Sprintf("harness: type %s of curated family %d does not load: %s", t.Name, fi, o.String()))
+			}
+		}
+	}
+}
+
 func c11Run(c *mon.Ctx, unit int) {
 	exh, hist, per, ord, ordPer, nat, natPer := c11Sizes(c.Tier)
+	if unit == 0 {
+		c11SelfTest(c)
+	}
 	switch {
 	case unit < exh:
 		c11RunExhaustive(c, unit/c11ExhSplit, unit%c11ExhSplit)
